@@ -141,8 +141,11 @@ def build_wows(v, rng, join=True, battle_end=True, map_name='spaces/16_OC_bees_t
     b = Battle(d, 'wows126' if new else 'wows', rng)
     consts = importlib.import_module('replay_unpack.clients.wows.versions.%s.constants' % v)
     A, BL, V1, V2 = 900, 10, 500, 501
-    b.base_player(A)
-    b.map(777, map_name)
+    # both orders of the two player-creation packets are legal (the player handles "entity already there" in either branch)
+    cell_first = rng.random() < 0.4
+    if not cell_first:
+        b.base_player(A)
+        b.map(777, map_name)
     def ribbons(t, val):
         ft = field_type(t, ['ribbons'])
         if ft is not None and strip_user(ft)[0] == 'array':
@@ -151,6 +154,9 @@ def build_wows(v, rng, join=True, battle_end=True, map_name='spaces/16_OC_bees_t
                 set_path(val, ['ribbons'], [{n: ((3 if n == 'ribbonId' else 2) if strip_user(x)[0] in 'ui' else default_value(x, rng)) for n, x in rt[1]}])
         return val
     b.cell_player(A, {'privateVehicleState': ribbons})
+    if cell_first:
+        b.base_player(A)
+        b.map(777, map_name)
     def state(t, val):
         if val is None: val = default_value(('dict', strip_user(t)[1], False), rng)
         for key in ('tasks', 'controlPoints', 'missions'):
@@ -162,6 +168,15 @@ def build_wows(v, rng, join=True, battle_end=True, map_name='spaces/16_OC_bees_t
     if 'battleResult' in blnames:
         vals.append(('battleResult', lambda t, x: x if x is not None else default_value(('dict', strip_user(t)[1], False), rng)))
     b.create(BL, 'BattleLogic', vals)
+    # a nested change below BattleLogic.state.controlPoints (an empty slice deleted from the empty list: the state stays what it is, but
+    # every nested-change subscriber of that path is called - with the library's (entity, container) convention)
+    if 'state' in blnames and 'NestedProperty' in b.ids:
+        st_t = dict(b.md.ent['BattleLogic']['client'])['state']; cp_t = field_type(st_t, ['controlPoints'])
+        if cp_t is not None and strip_user(cp_t)[0] == 'array':
+            fields = [n for n, _ in strip_user(st_t)[1]]
+            bits = synth.pack_bits([(1, 1), (blnames.index('state'), synth.bits_required(len(blnames))), (1, 1),
+                                    (fields.index('controlPoints'), synth.bits_required(len(fields))), (0, 1)])
+            b.pkt('NestedProperty', struct.pack('<IbB', BL, 1, len(bits)) + bytes(3) + bits)
     vnames = [p[0] for p in b.md.ent['Vehicle']['client']]
     def crew(t, val):
         if val is None: val = default_value(('dict', strip_user(t)[1], False), rng)
